@@ -68,7 +68,7 @@ MANIFEST = {
 
 POOL = (0, 1, True, 1.0, 'a', ('a',), (0, 1), (0, 'a'), frozenset({0}), None)
 # equal-but-not-identical alternates of pool elements and two always-foreign scalars (keys only)
-ALTS = (False, 0.0, (False, True), (0, 1.0), (0.0, 'a'), frozenset({False}), 2, 'b')
+ALTS = (False, 0.0, (False, True), (0, 1.0), (0.0, 'a'), frozenset({False}), 2, 'b', 0.3, 0.1 + 0.2)   # the last two differ by one ulp
 KEYPOOL = POOL + ALTS
 # always-foreign, unhashable, neither list nor tuple (bare and as a tuple component).  Deliberately not {0}: a set
 # equals frozenset({0}) under == while being unhashable, which no dict can express (the statement speaks of hashables)
@@ -108,6 +108,8 @@ def families(tier):
     if tier == 'quick':
         return [
             ('1 field, sizes 1-3, whole pool', [(POOL, (1, 2, 3))]),
+            ('1-2 fields over floats one ulp apart', [((0.3, 0.1 + 0.2, 'a'), (1, 2, 3))]),
+            ('2 fields, floats one ulp apart x (0, \'a\')', [((0.3, 0.1 + 0.2, 'a'), (1, 2)), ((0, 'a'), (1, 2))]),
             ('2 fields, outer sizes 1-2 over P8 x inner sizes 1-2 over Q5', [(P8, (1, 2)), (Q5, (1, 2))]),
             ('2 fields, outer size 1 whole pool x inner sizes 1-2 whole pool', [(POOL, (1,)), (POOL, (1, 2))]),
             ('2 fields, outer size 3 over T4 x inner sizes 1,3 over (1,\'a\',0,True)', [(T4, (3,)), ((1, 'a', 0, True), (1, 3))]),
@@ -117,6 +119,8 @@ def families(tier):
         ]
     return [
         ('1 field, sizes 1-4, whole pool', [(POOL, (1, 2, 3, 4))]),
+        ('1-2 fields over floats one ulp apart', [((0.3, 0.1 + 0.2, 'a'), (1, 2, 3))]),
+        ('2 fields, floats one ulp apart x (0, \'a\')', [((0.3, 0.1 + 0.2, 'a'), (1, 2)), ((0, 'a'), (1, 2))]),
         ('2 fields, sizes 1-2 x 1-2, whole pool', [(POOL, (1, 2)), (POOL, (1, 2))]),
         ('2 fields, outer size 3 x inner sizes 1-2 over P7', [(P7, (3,)), (P7, (1, 2))]),
         ('2 fields, outer sizes 1-2 x inner size 3 over P7', [(P7, (1, 2)), (P7, (3,))]),
